@@ -290,6 +290,9 @@ def run_iterator(ctx, env):
     # a real storage error: a consumer that starts late lets the backend run into its result-stream timeout
     # (badger waits a minute for its consumer: left out)
     scripts += [{"kind": "slowq", "backend": b, "total": 15, "waitms": 1400} for b in ("hashmap", "bbolt", "fstree")]
+    # a purge of more records than a storage handles in one batch (bbolt: 1000), in both delete modes
+    scripts += [{"kind": "bulk", "backend": b, "sd": sd, "total": 2300 if ctx.tier == "quick" else 5200}
+                for b in ("bbolt", "hashmap") for sd in (False, True)]
     binp = ctx.go_build(DRIVER)
     res = vlib.drive(ctx, binp, scripts[:nsched], chunk=max(1, nsched // 8), timeout=120, env=env)
     res += vlib.drive(ctx, binp, scripts[nsched:], chunk=1, timeout=120, env=env)
@@ -308,6 +311,11 @@ def run_iterator(ctx, env):
     ok, rej, unex = vlib.validate(ctx, "IteratorTrace", "IteratorTrace.cfg", hists, chunks=2)
     for hi, ej, ev in rej:
         sc = scripts[owner[hi]]
+        if sc["kind"] == "bulk":
+            ctx.violation("bulkpurge:%s:sd=%s:%s" % (sc["backend"], str(sc["sd"]).lower(), "left" if ev.get("left") else "count"),
+                          "purge of %d records below one prefix on %s (shadow delete %s): %s" % (
+                              sc["total"], sc["backend"], sc["sd"], json.dumps(ev)), {"script": sc, "observed": hists[hi]})
+            continue
         if sc["kind"] == "slowq":
             ctx.violation("slowquery:%s:%s:err=%s" % (sc["backend"], "short" if ev.get("n", 0) < sc["total"] else "complete", ev.get("v")),
                           "%s with %d matching records and a consumer that starts %d ms late: %s" % (
@@ -390,7 +398,7 @@ def replay(ctx, path):
     sc = doc["replay"]["script"]
     tmpd, env = _tmp_env()
     try:
-        if sc.get("kind") in ("iter", "slowq"):
+        if sc.get("kind") in ("iter", "slowq", "bulk"):
             binp = ctx.go_build(DRIVER)
             res = vlib.drive(ctx, binp, [sc], chunk=1, env=env)
             evs = [dict((k, v) for k, v in e.items() if k != "h") for e in res[0]["events"]]
